@@ -105,7 +105,7 @@ def main():
         finally:
             restore()
         report[name] = row
-        print(name, json.dumps(row)[:1200], flush=True)
+        print(name, json.dumps(row), flush=True)
     json.dump(report, open(os.path.join(ROOT, "work", "mutants_%s.json" % mode), "w"), indent=1)
     if mode == "run":
         det = [n for n, r in report.items() if r.get("detected")]
